@@ -57,7 +57,7 @@ def _run_batch(conds: List[Cond], exclusions: List[str]) -> List[dict]:
     env["PYTHONHASHSEED"] = env.get("PYTHONHASHSEED", "0")
     cases = ",".join(str(x.case) for x in conds)
     tmo = max(x.timeout for x in conds)
-    if c.engine == "smt":
+    if c.engine in ("smt", "direct"):
         cmd = [VENV_PY, "-W", "ignore", "-m", "vf.smtworker", c.module, c.function, cases, str(tmo)]
     else:
         cmd = [VENV_PY, "-W", "ignore", "-m", "vf.worker", c.module, c.function, cases, str(tmo), c.float_model]
@@ -197,6 +197,8 @@ def decide_condition(prop: str, c: Cond, findings: List[dict], log, first: Optio
                     verdict = ("inconclusive", f"replay error ({path}): {rep.get('detail', '')[:300]}")
         elif not r["exhausted"]:
             verdict = ("inconclusive", f"search not exhausted within {c.timeout}s ({r['paths']} paths)")
+        elif r.get("unexplored", 0) > 0 or r.get("unknown_sat", 0) > 0:
+            verdict = ("inconclusive", f"{r.get('unexplored', 0)} path(s) cut short (z3 unknown on {r.get('unknown_sat', 0)} queries / path timeout)")
         elif r["status"] == "CONFIRMED":
             verdict = ("holds-all-paths", "")
         elif r["status"] == "UNKNOWN" and c.float_model == "real":
@@ -220,10 +222,11 @@ def decide_condition(prop: str, c: Cond, findings: List[dict], log, first: Optio
         "confirmed_paths": sum(x["confirmed_paths"] for x in rounds),
         "cpu_s": round(sum(x["cpu_s"] for x in rounds), 2),
         "wall_s": round(sum(x["wall_s"] for x in rounds), 2),
-        "notes": sorted({tuple(n) for x in rounds for n in x["notes"]}),
+        "notes": sorted({tuple(n) for x in rounds for n in x["notes"]}, key=repr),
         "functions": sorted({f for x in rounds for f in x["functions"]}),
         "known_hits": known_hits,
         "rounds": len(rounds),
+        "unexplored": sum(x.get("unexplored", 0) for x in rounds),
         "smt": rounds[-1].get("smt"),
     }
     return total
